@@ -114,6 +114,23 @@ def check_cell(cell):
         got = o.value.serialized_bytes
         structural(out, tag, got, o.value)
         parse_and_compare(out, tag, got, ref)
+    # the same input as the library itself hands it out: signatures (and character values) as byte strings -- what subset(), the
+    # text converters and a rendering passed straight on to the encoder contain
+    fj = encutil.flat_json_of_case(case, as_str=False)
+    fj[0][0], fj[-1][0] = b'BUFR', b'7777'
+    inputs = [('signatures given as byte strings', fj)]
+    od = sut.call(decoder().process, ref)
+    if od.ok:
+        inputs.append(('the flat JSON rendering of the decoded message, handed over as it is', sut.FlatJsonRenderer().render(od.value)))
+        inputs.append(('subset() of the decoded message', od.value.subset(range(case.nsub))))
+    for tag, arg in inputs:
+        o = sut.call(encoder(False).process, arg)
+        n_enc += 1
+        if not o.ok:
+            out.fail('encoder raised %s@%s [%s]' % (o.exc_type, o.frame, tag), **ctx(error=o.msg))
+            continue
+        structural(out, tag, o.value.serialized_bytes, o.value)
+        parse_and_compare(out, tag, o.value.serialized_bytes, ref)
     # honour mode
     real = dict(case.info['lengths'])
     for k in sections_of(case):
@@ -357,6 +374,19 @@ def check_frame(fc):
     return out
 
 
+def empty_template_frames():
+    out = []
+    for edition in (2, 3, 4):
+        for n in (0, 1, 3):
+            for s2 in (None, b'xy'):
+                meta = frame.default_meta(edition)
+                meta.update({'master_table_version': 33, 'n_subsets': n, 'is_compressed': False, 'section2': s2})
+                case = gmsg.case_from_raws(meta, [], subsets=[[] for _ in range(n)])
+                out.append(FrameCase(case, {}, b'', None))
+                out.append(FrameCase(case, {1: 1, 4: 2}, b'7777', None, b'\r\r\n'))
+    return out
+
+
 def cells():
     out = []
     for edition in (2, 3, 4):
@@ -405,6 +435,19 @@ def run(tier, seed):
     rep.exhaustive = True
     rep.extra['encoder_cells'] = len(cs)
     rep.extra['encodes'] = n_enc
+    # the data section of zero bits: a message without descriptors (section 3 is its seven fixed octets, eight for
+    # editions <= 3), with 0, 1 and 3 subsets -- both directions
+    for fc in empty_template_frames():
+        out = check_frame(fc)
+        o = sut.call(encoder(False).process, encutil.flat_json_of_case(fc.case))
+        if not o.ok:
+            out.fail('encoder raised %s@%s on a message without descriptors' % (o.exc_type, o.frame), error=o.msg)
+        elif o.value.serialized_bytes != fc.case.bytes:
+            out.fail('encoder: a message without descriptors is not byte-identical to the independently built one',
+                     got=o.value.serialized_bytes.hex(), expected=fc.case.bytes.hex())
+        rep.add_case('empty:' + fc.key(), True, ['data_section_of_zero_bits'] + sorted(out.classes), None)
+        for clause, detail in out.failures:
+            rep.add_failure('no descriptors: ' + clause, detail, fc.to_json(), stage='decoder framing')
     opts = gstreams.small_opts(tier, max_ids=8)
     n = 1500 if tier == 'quick' else 50000
     runner.run_generated(rep, lambda ch: gen_frame(ch, opts), check_frame, n, workers, stage='decoder framing')
